@@ -99,10 +99,10 @@ func writer(s *simrt.Sim) {
 	var nextVersion uint64
 	prodLeft := 0
 	var finalStop func()
-	var firstEnqInv, racingRet uint64
-	nprod := 1 + s.Choose(4)
+	var firstEnqInv, racingRet, firstStopInv uint64
+	nprod := 1 + s.Choose(simrt.Bound(4, 5))
 	for p := 0; p < nprod; p++ {
-		n := 1 + s.Choose(4)
+		n := 1 + s.Choose(simrt.Bound(4, 7))
 		type step struct {
 			obj   int
 			sleep time.Duration
@@ -191,20 +191,44 @@ func writer(s *simrt.Sim) {
 	}
 	doStop := func(what string) {
 		inv := s.Tick()
+		if firstStopInv == 0 {
+			firstStopInv = inv
+		}
+		if what != "final" {
+			// an Enqueue invoked after an earlier Stop may legitimately have been dropped: every Stop call is held to
+			// what was enqueued before the FIRST Stop call was invoked
+			inv = firstStopInv
+		}
 		s.Logf("StopBatchWriter (%s)", what)
 		bw.StopBatchWriter()
 		s.Logf("StopBatchWriter returned (%s)", what)
-		if what == "racing" {
-			racingRet = s.Tick()
+		if what != "final" {
+			racingRet = s.Tick() // the latest return of a non-final Stop call
 		}
 		checkAtStop(inv, what == "final")
 	}
 	// a Stop issued before the first Enqueue is a no-op and a later Enqueue auto-starts the writer: the last task to
 	// finish issues a final Stop so that every run ends with a stopped writer
+	finalIssued := false
+	extraLeft := s.Choose(3)
 	finalStop = func() {
-		if prodLeft == 0 && stopped {
+		if prodLeft == 0 && stopped && extraLeft == 0 && !finalIssued {
+			finalIssued = true
 			doStop("final")
 		}
+	}
+	// 0-2 further Stop callers racing with the first one: every Stop call has to wait for what was enqueued before it
+	nextra := extraLeft
+	for x := 0; x < nextra; x++ {
+		d := s.Choose(10)
+		s.Go(fmt.Sprintf("stopper-extra%d", x), func() {
+			for i := 0; i < d; i++ {
+				simrt.Yield()
+			}
+			doStop("extra")
+			extraLeft--
+			finalStop()
+		})
 	}
 	s.Go("stopper", func() {
 		for i := 0; i < stopDelay; i++ {
